@@ -37,7 +37,7 @@ MCInit2 ==
              ELSE {})
 
 NodePool(U) == KnotSet(U) \cup Midpoints(U) \cup Outside(U) \cup {x \in ExtraNodes : Valid(U, x)}
-EvalGrid(U) == ParamGrid(U, Deg(U) + 1)
+EvalGrid(U) == ParamGrid(U, Deg(U) + 1) \cup Midpoints(U)
 
 (* the default nodes of fit_points: closed equispaced over the whole interval *)
 NCGrid(V, n) == [i \in 1..n |-> Add(Umin(V), Mul(Sub(Umax(V), Umin(V)), Q(i - 1, n - 1)))]
@@ -90,6 +90,10 @@ MCArgs(name, h, dep) ==
            {[obj |-> "a", nodes |-> n] : n \in MultisetsUpTo(NodePool(U), NodeSize)}
            \cup {[obj |-> "a", nodes |-> <<Umin(U), Umax(U)>>]}
            \cup {[obj |-> "a", nodes |-> <<x, y>>] : x, y \in {z \in Midpoints(U) : TRUE}}
+           \* unsorted requests of three nodes (repetition counts that differ, non-adjacent repeats)
+           \cup {[obj |-> "a", nodes |-> n] :
+                    n \in {m \in SeqsUpTo(Midpoints(U) \cup {x \in InteriorSet(U) : MultOf(U, x) = 1}, 3) :
+                             Len(m) = 3 /\ ~(Le(m[1], m[2]) /\ Le(m[2], m[3]))}}
          ELSE IF dep < PrepDepth THEN
            {[obj |-> "a", nodes |-> n] :
                n \in {m \in MultisetsUpTo(Midpoints(U) \cup InteriorSet(U), NodeSize) \ {<<>>} : InsertGuard(U, m)}}
